@@ -58,6 +58,10 @@ PB  == Pf(KB, VB, Bank, "iavl")
 PA2 == Pf(KA, VF, Bank2, "iavl")
 PM  == Pf(KBank, Bank, Multi, "simple")
 PM2 == Pf(KBank, Bank2, Multi2, "simple")
+\* an honest proof in a tree of the node's own making (root Tree3) whose VALUE is the forged app root: appended to a
+\* chain it offers the forged root where the header's app hash should be used
+Tree3 == 301
+PX  == Pf(KBank, Multi2, Tree3, "simple")
 
 \* tampering with the bytes of a proof
 FlipNode(p)     == [p EXCEPT !.r = Garbage]        \* a sibling hash / prefix changed
@@ -105,9 +109,9 @@ Linked(value, root) == value # 0 /\ value = Committed(root)
 \* ---- the enumerated answers ---------------------------------------------
 \* an op is built from an honest proof of one of the two worlds (`base`) and a tampering recipe; the harness
 \* builds the real bytes from the recipe, the model computes the abstract proof from it
-Base(b) == CASE b = "PA" -> PA [] b = "PB" -> PB [] b = "PA2" -> PA2 [] b = "PM" -> PM [] b = "PM2" -> PM2
+Base(b) == CASE b = "PA" -> PA [] b = "PB" -> PB [] b = "PA2" -> PA2 [] b = "PM" -> PM [] b = "PM2" -> PM2 [] b = "PX" -> PX
 Val(x)  == CASE x = "VA" -> VA [] x = "VB" -> VB [] x = "VF" -> VF [] x = "Bank" -> Bank [] x = "Bank2" -> Bank2
-                [] x = "zero" -> 0
+                [] x = "AppHash2" -> Multi2 [] x = "zero" -> 0
 Key(x)  == CASE x = "KA" -> KA [] x = "KB" -> KB [] x = "KBank" -> KBank
 Root(x) == IF x = "AppHash" THEN AppHash ELSE AppHash2
 
@@ -132,7 +136,9 @@ Pool == {
     Recipe("ics23:simple", "KBank", "PM2", "none", ""),      \* multistore of the forged world
     Recipe("ics23:simple", "KBank", "PM", "flip", ""),
     Recipe("ics23:simple", "KBank", "PM", "setvalue", "Bank2"),   \* forged bank root spliced into the honest multistore proof
-    Recipe("ics23:iavl", "KBank", "PM", "none", "")
+    Recipe("ics23:iavl", "KBank", "PM", "none", ""),
+    Recipe("ics23:simple", "KBank", "PX", "none", ""),            \* existence op whose value is the forged app root
+    Recipe("ics23:simple", "KBank", "PM", "setvalue", "AppHash2") \* ... the same, written into the honest multistore proof
 }
 
 SeqsUpTo(S, k) == UNION {[1..m -> S] : m \in 0..k}
